@@ -77,6 +77,13 @@ func (c *Carousel) GetLeader(round hotstuff.View) hotstuff.ID {
 	})
 	slices.Sort(candidates)
 
+	if len(candidates) == 0 {
+		// the certificate lists no signer that may lead (e.g. a signature without participants
+		// in a certificate for the genesis block, which is accepted without looking at it).
+		c.logger.Debug("no candidates; fallback to round-robin")
+		return ChooseRoundRobin(round, c.config.ReplicaCount())
+	}
+
 	seed := c.config.SharedRandomSeed() + int64(round)
 	rnd := rand.New(rand.NewSource(seed))
 
